@@ -144,7 +144,7 @@ CLAIMED.update({
          'diagonal tables, KL(P,P)=0, and the normalisation divides entry (i,j) by log(min(n_x[i], n_y[j])) for different feature/state counts.',
     note='Trusted: both engines, z3, log as uninterpreted function with the instances log(1)=0, log(1/p)=-log p. Relative entropy of two different distributions is proved non-negative, zero only for equal distributions and +inf on support mismatch with log '
          'abstracted to a real satisfying the tangent bounds 1-1/x <= log x <= x-1; weighted_mi runs with symbolic weights (symmetry, no exception, '
-         'independence from uninitialised memory). Outside: MI<=min(H); equality of weighted_mi with the count-based estimator is only replayed.',
+         'independence from uninitialised memory). MI >= 0 is proved the same way on 2x2 tables. Outside: MI<=min(H); equality of weighted_mi with the count-based estimator is only replayed.',
     ref='DESIGN.md section 8 C18'),
  'C19': dict(engine='symnp + cy2smt',
     technique='2-safety on uninitialised-memory variables (fresh cells of arbitrary IEEE kind) in symbolic runs of the routines that allocate masked-ufunc outputs; prange independence obligations; AST scan of uninitialised-output sites; z3',
